@@ -20,6 +20,13 @@ import unicodedata
 
 from core import term as T
 
+def B(b):
+    """Bytes as a Coq term: (pb [chunks of 7 bytes as primitive integers] bytes-in-last-chunk), Model/DirnodeLit.v."""
+    b = bytes(b)
+    chunks = [b[i:i + 7] for i in range(0, len(b), 7)]
+    return "(pb [%s] %d%%nat)" % ("; ".join("0x%s%%uint63" % c.hex() for c in chunks), len(chunks[-1]) if chunks else 0)
+
+
 RO = b"ro."
 IMM = b"imm."
 
@@ -132,11 +139,11 @@ class Cap(object):
     def coq_class(self):
         d = T.boolean(self.isdir)
         if self.cls == "write":
-            return "KWrite %s %s %s" % (d, T.bytes_(self.canon), T.bytes_(self.ro))
+            return "KWrite %s %s %s" % (d, B(self.canon), B(self.ro))
         if self.cls == "read":
-            return "KRead %s %s" % (d, T.bytes_(self.canon))
+            return "KRead %s %s" % (d, B(self.canon))
         if self.cls == "imm":
-            return "KImm %s %s" % (d, T.bytes_(self.canon))
+            return "KImm %s %s" % (d, B(self.canon))
         return {"bad-w": "KBad GWrite", "bad-m": "KBad GMutable", "bad-n": "KBad GNone",
                 "futw": "KFutureW", "futm": "KFutureM", "other": "KOther"}[self.cls]
 
@@ -258,7 +265,7 @@ class CapTable(object):
                                 want.add(x)
                                 grow = True
             caps = [c for c in caps if c.s in want]
-        items = ["(%s, %s)" % (T.bytes_(c.s), c.coq_class()) for c in caps]
+        items = ["(%s, %s)" % (B(c.s), c.coq_class()) for c in caps]
         return "(classify_tbl [%s])" % "; ".join(items)
 
     def classify(self, s):
@@ -419,7 +426,7 @@ def jval(x, sort=False):
     if isinstance(x, int):
         return "(JNum %s)" % T.Z(x)
     if isinstance(x, str):
-        return "(JStr %s)" % T.bytes_(x.encode("utf-8"))
+        return "(JStr %s)" % B(x.encode("utf-8"))
     if isinstance(x, (list, tuple)):
         return "(JArr [%s])" % "; ".join(jval(v, sort) for v in x)
     if isinstance(x, dict):
@@ -431,7 +438,7 @@ def jobj(d, sort=False):
     items = list(d.items())
     if sort:
         items.sort(key=lambda kv: kv[0].encode("utf-8"))
-    return "[%s]" % "; ".join("(%s, %s)" % (T.bytes_(k.encode("utf-8")), jval(v, sort)) for k, v in items)
+    return "[%s]" % "; ".join("(%s, %s)" % (B(k.encode("utf-8")), jval(v, sort)) for k, v in items)
 
 
 def has_float(x):
@@ -474,14 +481,14 @@ def coq_node(obs):
     kind, rw, ro, mut, err = obs
     return "{| n_kind := %s; n_rw := %s; n_ro := %s; n_mut := %s; n_err := %s |}" % (
         {"file": "NFile", "dir": "NDir", "unknown": "NUnknown"}[kind],
-        T.opt(T.bytes_(rw) if rw is not None else None), T.opt(T.bytes_(ro) if ro is not None else None),
+        T.opt(B(rw) if rw is not None else None), T.opt(B(ro) if ro is not None else None),
         T.boolean(mut), T.opt(ERRS[err] if err else None))
 
 
 def coq_cfc(cls_name, deep_imm, w, r):
     return "(create_from_cap %s %s %s %s)" % (cls_name, T.boolean(deep_imm),
-                                             T.opt(T.bytes_(w) if w is not None else None),
-                                             T.opt(T.bytes_(r) if r is not None else None))
+                                             T.opt(B(w) if w is not None else None),
+                                             T.opt(B(r) if r is not None else None))
 
 
 def expected_allowed_in_immutable(obs):
